@@ -81,10 +81,36 @@ type c08Config struct {
 	skipN, skipW, skipR bool
 	predN, predW, predR string
 	procs               int
+	// own: the consumer treats every returned object as its own and appends to its tag,
+	// node and member lists straight away; no other returned object may notice
+	own bool
+}
+
+// c08Own appends one entry to every list of o, as a consumer that owns o may, and returns
+// the function that takes them off again.
+func c08Own(o osm.Object, i int) (undo func()) {
+	t := osm.Tag{Key: "verif:own", Value: fmt.Sprint(i)}
+	switch v := o.(type) {
+	case *osm.Node:
+		old := v.Tags
+		v.Tags = append(v.Tags, t)
+		return func() { v.Tags = old }
+	case *osm.Way:
+		ot, on := v.Tags, v.Nodes
+		v.Tags = append(v.Tags, t)
+		v.Nodes = append(v.Nodes, osm.WayNode{ID: osm.NodeID(-1 - i), Version: 7, Lat: 1.5, Lon: -2.5})
+		return func() { v.Tags, v.Nodes = ot, on }
+	case *osm.Relation:
+		ot, om := v.Tags, v.Members
+		v.Tags = append(v.Tags, t)
+		v.Members = append(v.Members, osm.Member{Type: osm.TypeWay, Ref: int64(-1 - i), Role: "verif:own"})
+		return func() { v.Tags, v.Members = ot, om }
+	}
+	return func() {}
 }
 
 func (c c08Config) String() string {
-	return fmt.Sprintf("skip=%d%d%d preds=%s/%s/%s procs=%d", b2i(c.skipN), b2i(c.skipW), b2i(c.skipR), c.predN, c.predW, c.predR, c.procs)
+	return fmt.Sprintf("skip=%d%d%d preds=%s/%s/%s procs=%d own=%v", b2i(c.skipN), b2i(c.skipW), b2i(c.skipR), c.predN, c.predW, c.predR, c.procs, c.own)
 }
 
 func c08Run(res *fw.Result, data []byte, want []pbfw.Expect, cfg c08Config, keyBase string) {
@@ -153,6 +179,7 @@ func c08Run(res *fw.Result, data []byte, want []pbfw.Expect, cfg c08Config, keyB
 		}
 	}
 	var snaps []string
+	var undo []func()
 	sr := pbfScan(mon.NewReader(data), cfg.procs, false, func(s *osmpbf.Scanner) {
 		s.SkipNodes, s.SkipWays, s.SkipRelations = cfg.skipN, cfg.skipW, cfg.skipR
 		if cfg.predN != "nil" {
@@ -165,6 +192,13 @@ func c08Run(res *fw.Result, data []byte, want []pbfw.Expect, cfg c08Config, keyB
 			s.FilterRelation = func(r *osm.Relation) bool { return check(r, cfg.predR) }
 		}
 	}, func(i int, o osm.Object, s *osmpbf.Scanner) {
+		if cfg.own {
+			c := eq.Clone(o)
+			c08Own(c, i)
+			snaps = append(snaps, eq.Dump(c))
+			undo = append(undo, c08Own(o, i))
+			return
+		}
 		snaps = append(snaps, eq.Dump(o))
 	})
 	res.Event(calls.Load() + int64(len(sr.Objs)))
@@ -175,14 +209,17 @@ func c08Run(res *fw.Result, data []byte, want []pbfw.Expect, cfg c08Config, keyB
 		res.Violatef(key+"/err", "filtered scan of a valid file ended with %v (%s)", sr.Err, cfg)
 		return
 	}
-	if d := pbfw.CompareSeq(exp, sr.Objs); d != "" {
-		res.Violatef(key+"/subsequence", "%s: %s", cfg, d)
-	}
 	for i, o := range sr.Objs {
 		if i < len(snaps) && eq.Dump(o) != snaps[i] {
 			res.Violatef(key+"/modified-after-return", "%s: object #%d (%s) changed after it was returned: %s", cfg, i, objID(o), eq.Diff(snaps[i], eq.Dump(o)))
 			break
 		}
+	}
+	for _, u := range undo {
+		u()
+	}
+	if d := pbfw.CompareSeq(exp, sr.Objs); d != "" {
+		res.Violatef(key+"/subsequence", "%s: %s", cfg, d)
 	}
 	if len(cbMismatch) > 0 {
 		res.Violatef(key+"/filter-argument", "%s: %s (and %d more)", cfg, cbMismatch[0], len(cbMismatch)-1)
@@ -266,6 +303,7 @@ func c08Exec(c fw.Case) *fw.Result {
 			cfg.predW = c08Preds[r.Intn(len(c08Preds))]
 			cfg.predR = c08Preds[r.Intn(len(c08Preds))]
 		}
+		cfg.own = k%2 == 1
 		c08Run(res, data, want, cfg, keyBase)
 		res.Eval(fmt.Sprintf("skip%d%d%d/%s-%s-%s/%s", b2i(cfg.skipN), b2i(cfg.skipW), b2i(cfg.skipR), cfg.predN, cfg.predW, cfg.predR, c08Pattern(want, cfg)))
 		res.Put("neighbour_patterns", c08Pattern(want, cfg))
